@@ -383,8 +383,8 @@ impl Property for C45 {
         "the server sees at most 512 bytes of a datagram (its receive buffer)",
         "server state is the one CsptpManager::new establishes (no upstream CSPTP source)",
     ];
-    const QUICK_CASES: u32 = 300_000;
-    const THOROUGH_CASES: u32 = 8_000_000;
+    const QUICK_CASES: u32 = 1_000_000;
+    const THOROUGH_CASES: u32 = 12_000_000;
 
     fn strategy(_tier: Tier) -> BoxedStrategy<Case> {
         let config = (any::<[u8; 8]>(), any::<u8>(), any::<u8>(), any::<u8>(), canonical_accuracy(), any::<u16>(), any::<bool>(), any::<bool>(), any::<bool>()).prop_map(
